@@ -1,6 +1,7 @@
 package core
 
 import (
+	"strings"
 	"go/token"
 	"fmt"
 	"go/types"
@@ -423,6 +424,27 @@ func (x *Exec) backEdge(fr *frame, li *loopInfo, s *State, cond Term) {
 	be := x.oblCount[fmt.Sprintf("%s#be%d", fr.fn, li.ordinal)]
 	for k, inv := range lc.Invariants {
 		x.obligeKnown(env, fmt.Sprintf("%s#loop%d.inv%d.preserved.%d", shortFn(fr.fn), li.ordinal, k, be), "invariant", pos, inv.Text, cond, env.evalGoal(inv.Expr))
+	}
+	for k, stp := range lc.Steps {
+		prop, ok := func() (t Term, ok bool) {
+			defer func() {
+				if r := recover(); r != nil {
+					if u, isU := r.(unsupported); isU && strings.Contains(u.msg, "unknown identifier") {
+						ok = false // a back edge taken before the named local exists (early continue)
+						return
+					}
+					panic(r)
+				}
+			}()
+			return env.evalGoal(stp.Expr), true
+		}()
+		if !ok {
+			continue
+		}
+		if x.stepHits != nil {
+			x.stepHits[stp]++
+		}
+		x.obligeKnown(env, fmt.Sprintf("%s#loop%d.step%d.%d", shortFn(fr.fn), li.ordinal, k, be), "step", pos, stp.Text, cond, prop)
 	}
 	if lc.Decreases != nil {
 		v0 := fr.variants[li.header][0]
